@@ -7,6 +7,7 @@ import YangVerif.Drv.C10
 import YangVerif.Drv.C05
 import YangVerif.Drv.C11
 import YangVerif.Drv.Data
+import YangVerif.Drv.C08
 
 def dispatch (line : String) : String :=
   match (line.trimAscii.toString.splitOn " ").filter (· ≠ "") with
@@ -15,6 +16,7 @@ def dispatch (line : String) : String :=
   | "c05" :: rest => YangVerif.Drv.C05.handle rest
   | "c11" :: rest => YangVerif.Drv.C11.handle rest
   | "data" :: rest => YangVerif.Drv.Data.handle rest
+  | "c08" :: rest => YangVerif.Drv.C08.handle rest
   | _ => "bad-op"
 
 partial def loop (h : IO.FS.Stream) (out : IO.FS.Stream) : IO Unit := do
